@@ -31,7 +31,7 @@ def configs(work, tier):
         # a journal inside a tar archive (extracted to a temporary file as well)
         d3 = os.path.join(work, "jt")
         common.write_file(os.path.join(d3, "a.tar"), gen.tar([("x.journal", data)]))
-        cfgs.append(("jt", d3, ["x.journal"]))
+        cfgs.append(("jt", d3, ["a.tar|x.journal"]))      # the worker thread of a tar member is named `archive|member`
         # two compressed sources: one may have finished (its temporary file already gone) when the signal arrives
         d4 = os.path.join(work, "jj")
         common.write_file(os.path.join(d4, "a.journal.gz"), gen.gz(data, 1))
@@ -62,12 +62,22 @@ def classify(x):
     feats["workers_frozen_at"] = ",".join(frozen)
     if sig:
         si = ev.index("sigint")
-        created_before = any(e.endswith(":ntf_created") for e in ev[:si])
-        listed_before = any(e.endswith(":ntf_listed") for e in ev[:si])
-        hfr = [i for i, e in enumerate(ev) if e.endswith(":h_files_removed")]
-        created_after_sweep = bool(hfr) and any(e.endswith(":ntf_created") or e.endswith(":ntf_listed") for e in ev[hfr[0]:])
-        feats["sigint_vs_tempfile"] = "after-listed" if listed_before else ("between-created-and-listed" if created_before else "before-created")
-        feats["tempfile_created_or_listed_after_handler_sweep"] = created_after_sweep
+        names = [t["name"] for t in tr.get("threads", [])]
+        htid = names.index("handler") if "handler" in names else None
+        hl = [i for i, e in enumerate(ev) if htid is not None and e == "l%d:NTF" % htid]
+        sweep = hl[0] if hl else None          # the handler takes the list lock, then removes every listed file
+        # per worker still alive at death: does it own a temporary file that was NOT on the list when the handler swept it?
+        explained = 0
+        for tid, nm in enumerate(names):
+            if not nm.startswith("w") or th[nm] == "finished":
+                continue
+            created = any(e == "p%d:ntf_created" % tid for e in ev) or th[nm].startswith("parked@P:ntf_created") or th[nm].startswith("parked@L:NTF")
+            wl = [i for i, e in enumerate(ev) if e == "l%d:NTF" % tid]      # the push happens under this lock
+            listed_before_sweep = bool(wl) and (sweep is None or wl[0] < sweep)
+            if created and sweep is not None and not listed_before_sweep:
+                explained += 1
+        feats["signal_position"] = "before-any-tempfile-listed" if not any(e.endswith(":ntf_listed") for e in ev[:si]) else "after-some-tempfile-listed"
+        feats["every_leaked_file_was_listed_after_the_handler_sweep_or_never"] = explained >= len(x.tmp_left)
     return feats
 
 
